@@ -71,8 +71,22 @@ def generate(tier, seed):
             d3.append(iff(c, neg(rnd.choice(d1))))
         else:
             d3.append(rimp(rnd.choice(d1), forall([var('Y')], c)))
+    # a tiny atom set, exhaustively: every connective (incl. both quantifiers) over {p, q(X), X < 3, #false, #true}
+    # to depth 2 (binary nodes of depth 2 with one atomic operand), every unary wrapper of those (depth 3, sampled in quick),
+    # and left-nested implications / equivalences of depth 3
+    t0 = [atom('p'), atom('q', X), cmp(X, '<', num(3)), FALSE, TRUE]
+    un = [neg, lambda f: forall([var('X')], f), lambda f: exists([var('X')], f)]
+    t1 = [u(a) for u in un for a in t0] + [(op, a, b) for op in BIN for a in t0 for b in t0]
+    t2 = [u(c) for u in un for c in t1] + [(op, c, a) for op in BIN for c in t1 for a in t0[:4]] \
+        + [(op, a, c) for op in BIN for c in t1 for a in t0[:4]]
+    t3 = [u(c) for u in un for c in t2]
+    nest = [(op1, (op2, c, a), b) for op1 in ('imp', 'rimp', 'iff') for op2 in ('imp', 'rimp', 'iff') for c in t1[:15] + t1[40:70]
+            for a in t0[:2] for b in t0[:2]]
+    rnd.shuffle(t3)
+    rnd.shuffle(nest)
+    tiny = t1 + t2 + t3[:1500 if tier == 'quick' else len(t3)] + nest[:400 if tier == 'quick' else len(nest)]
     items = []
-    for fam, fs in (('depth0', d0), ('depth1', d1), ('depth2', d2), ('names', names), ('depth3+', d3)):
+    for fam, fs in (('depth0', d0), ('depth1', d1), ('depth2', d2), ('names', names), ('depth3+', d3), ('tiny-exhaustive', tiny)):
         for f in fs:
             items.append({'family': fam, 'formula': f})
     if tier == 'thorough':
@@ -197,7 +211,7 @@ def replay(r):
 
 def describe(tier):
     return {
-        'rule': 'formulas enumerated bounded-exhaustively (depth<=2 over the listed atoms/connectives/quantifier '
+        'rule': 'every formula over 5 atoms (p, q(X), X<3, #false, #true) and all connectives/quantifiers to depth 2, their unary wrappers and left-nested implications/equivalences at depth 3; same-arity pairs from a pool of names that are each other\'s here/there copies; formulas enumerated bounded-exhaustively (depth<=2 over the listed atoms/connectives/quantifier '
                 'blocks, plus seeded depth 3-4 and a predicate-name pool); one obligation per formula; distinct by '
                 'S-expression of the input; non-trivial = contains at least one connective or quantifier',
         'functions': ['translating::classical_reduction::gamma::{Gamma for Formula, Here, There, prepend_predicate}',
